@@ -368,9 +368,19 @@ func controlConds(b *ssa.BasicBlock) []ssa.Value {
 		}
 		s0 := branchLeadsTo(d, 0, b)
 		s1 := branchLeadsTo(d, 1, b)
-		if s0 != s1 && !(inCycle(d) && !reachesBlock(b, d)) {
-			out = append(out, ifi.Cond)
+		if s0 == s1 {
+			continue
 		}
+		if inCycle(d) && !reachesBlock(b, d) {
+			lead := d.Succs[1]
+			if s0 {
+				lead = d.Succs[0]
+			}
+			if !reachesBlock(lead, d) {
+				continue // the edge towards b leaves the loop: an exit test does not control what follows the loop
+			}
+		}
+		out = append(out, ifi.Cond)
 	}
 	return out
 }
